@@ -111,9 +111,12 @@ def show(pl):
     return [dict(first=p.first, von=p.von, last=p.last, jr=p.jr) if isinstance(p, NameParts) else repr(p) for p in pl]
 
 
-def check_value(names, acc, do_stack=True, case=None):
-    value = " and ".join(names)
-    case = case if case is not None else {"names": list(names)}
+LIST_SEPS = [" and ", "\nand ", " AND\n", "\tand\t"]
+
+
+def check_value(names, acc, do_stack=True, case=None, sep=" and "):
+    value = sep.join(names)
+    case = case if case is not None else {"names": list(names), "sep": sep}
     # ---- function pair
     acc.trace()
     try:
@@ -204,12 +207,13 @@ def run_shard(shard, tier, acc):
         maxn = 2 if tier == "quick" else 3
         for n in range(2, maxn + 1):
             for rest in itertools.product(CATALOGUE, repeat=n - 1):
-                acc.count("catalogue_lists")
-                check_value((first,) + rest, acc, do_stack=True)
+                for sep in LIST_SEPS:
+                    acc.count("catalogue_lists")
+                    check_value((first,) + rest, acc, do_stack=(sep == " and " or n == 2), sep=sep)
 
 
 def replay(case, acc):
-    check_value(case["names"], acc, True, case)
+    check_value(case["names"], acc, True, case, sep=case.get("sep", " and "))
 
 
 def unit_test(case):
